@@ -158,11 +158,24 @@ def group(ctx, facts):
                     a = str(flow.expr_of(c, t["args"][1], max_depth=20))
                     oka = re.search(r"\('upvar', '\w+'\)", a) is not None and flow.expr_of(c, t["args"][0]) == ("arg", 2)
         oka = oka and item in str(flow.expr_of(b, am[0][1]["args"][1], max_depth=30))
+    if not am:
+        # explicit `match map.entry(key) { Occupied(e) => e.get_mut().add_report(report.into()), Vacant(v) => v.insert(Single(report.into())) }`
+        for bb, t in b.calls():
+            if (F.callee(t)[0] or "") == ME + "add_report":
+                recv = str(flow.expr_of(b, t["args"][0], max_depth=12))
+                a = str(flow.expr_of(b, t["args"][1], max_depth=30))
+                oka = ("OccupiedEntry" in recv and re.search(r"get_mut|into_mut", recv) is not None and "BTreeMap::<K, V, A>::entry" in recv) and item in a
     ctx.ob("GROUP", "existing-key:add_report(report)", oka, "a repeated key goes through add_report with this report" if oka else "a repeated match key is not handled by add_report(this report)", site_of(b, am[0][0]) if am else site_of(b))
     oko = False
     if len(oi) == 1:
         e = flow.expr_of(b, oi[0][1]["args"][1], max_depth=30)
         oko = e[0] == "agg" and isinstance(e[1], tuple) and e[1][1] == "Single" and item in str(e[2][0]) and "and_modify" in str(flow.expr_of(b, oi[0][1]["args"][0], max_depth=30))
+    if not oi:
+        vi = find(r"VacantEntry::<'a, K, V, A>::insert(_entry)?$")
+        if len(vi) == 1:
+            e = flow.expr_of(b, vi[0][1]["args"][1], max_depth=30)
+            oko = e[0] == "agg" and isinstance(e[1], tuple) and e[1][1] == "Single" and item in str(e[2][0]) and "BTreeMap::<K, V, A>::entry" in str(flow.expr_of(b, vi[0][1]["args"][0], max_depth=12))
+            oi = vi
     ctx.ob("GROUP", "new-key:Single(report)", oko, "a new key starts as Single(report)" if oko else "a new match key is not inserted as Single(this report)", site_of(b, oi[0][0]) if oi else site_of(b))
     ret = str(flow.expr_of(b, {"cp": [0]}, max_depth=30))
     fm = find(r"Iterator::filter_map$")
@@ -190,11 +203,26 @@ def wire_agg(ctx, facts):
         f1 = re.findall(r"'(breakdown_key|value)'", str(a[3]))
         i0 = index_const(b, t["args"][2])
         i1 = index_const(b, t["args"][3])
-        rid = str(a[1])
-        by_field[(step.group(1) if step else "?")] = (f0, f1, i0, i1, rid, bb)
+        # the pair may be destructured in the closure head (`|(idx, [first, second])|`): each captured field then is its
+        # own captured variable, whose place in the enclosing closure says which report and which field it is
+        if not f0 or not f1 or "?" in (i0, i1):
+            c0, c1 = captured_component(facts, b, a[2]), captured_component(facts, b, a[3])
+            if c0 and c1:
+                (f0, i0), (f1, i1) = ([c0[0]], c0[1]), ([c1[0]], c1[1])
+        # record id: the enumeration index (component 0 of the closure's parameter), not a name
+        rid_src = flow.strip_casts(a[1])
+        while rid_src[0] == "call" and re.search(r"(Into::into|From::from)$", rid_src[1]):
+            rid_src = flow.strip_casts(rid_src[2][0])
+        rid_ok = False
+        if rid_src[0] == "upvar":
+            from rules.C06 import upvar_sources
+            par_ = facts.bodies.get(b.path.rsplit("::{closure", 1)[0])
+            src_ = flow.strip_casts(upvar_sources(facts, par_, b.path).get(rid_src[1], ("?",))) if par_ is not None else ("?",)
+            rid_ok = src_[:2] == ("arg", 2) and src_[2:] in ((0,), ("0",))
+        by_field[(step.group(1) if step else "?")] = (f0, f1, i0, i1, "idx" if rid_ok else str(a[1]), bb)
     for step, fld in (("AddBK", "breakdown_key"), ("AddV", "value")):
         v = by_field.get(step)
-        ok = v is not None and v[0] == [fld] and v[1] == [fld] and {v[2], v[3]} == {"0", "1"} and "idx" in v[4]
+        ok = v is not None and v[0] == [fld] and v[1] == [fld] and {v[2], v[3]} == {"0", "1"} and v[4] == "idx"
         ctx.ob("WIRE-agg", f"{step}:adds-{fld}-of-both-reports", ok, f"{fld}(r0) + {fld}(r1), record id = pair index" if ok else f"step {step} does not add the {fld} fields of the two reports of the pair (got {v[:5] if v else None})", site_of(b, v[5]) if v else site_of(b))
     # result struct fields
     okf = False
@@ -207,6 +235,44 @@ def wire_agg(ctx, facts):
             if "breakdown_key" in vals and "value" in vals:
                 okf = "'AddBK'" in vals["breakdown_key"] and "'AddV'" not in vals["breakdown_key"] and "'AddV'" in vals["value"] and "'AddBK'" not in vals["value"] and "collect_bits" in vals["breakdown_key"] and "collect_bits" in vals["value"]
     ctx.ob("WIRE-agg", "result-fields", okf, "breakdown_key <- AddBK sum, value <- AddV sum" if okf else "the aggregated report's fields are not fed by the sums of the same name (breakdown key and value swapped or one reused)", site_of(b))
+
+
+def captured_component(facts, b, e):
+    """(field name, constant index) of a captured variable that is `<pair parameter>[k].<field>` in the enclosing closure"""
+    e = flow.strip_casts(e)
+    while e[0] == "call" and e[2]:
+        e = flow.strip_casts(e[2][0])
+    if e[0] != "upvar":
+        return None
+    parent = facts.bodies.get(b.path.rsplit("::{closure", 1)[0])
+    if parent is None:
+        return None
+    for bb, idx, s_ in parent.iter_assigns():
+        r = s_["r"]
+        if r["k"] == "agg" and r.get("def") == b.path:
+            for i, o in enumerate(r["ops"]):
+                if flow.upvar_name(b, i) == e[1]:
+                    pl = F.op_place(o)
+                    if pl is None:
+                        return None
+                    # expand the base local through the copies / borrows that bound it (`let first = pair[0]`)
+                    projs = list(pl[1:])
+                    base_l = pl[0]
+                    for _ in range(6):
+                        ds = parent.defs().get(base_l, [])
+                        if len(ds) != 1 or ds[0][1] == "t":
+                            break
+                        d = ds[0][2]
+                        src = d.get("p") if d["k"] in ("ref", "raw", "cfd") else (F.op_place(d["o"]) if d["k"] == "use" else None)
+                        if not src:
+                            break
+                        projs = list(src[1:]) + projs
+                        base_l = src[0]
+                    ci = [x for x in projs if isinstance(x, list) and x[0] == "ci"]
+                    fl = [x for x in projs if isinstance(x, list) and x[0] == "f" and len(x) > 2 and x[2]]
+                    if ci and fl and base_l == 2:
+                        return fl[-1][2], str(ci[0][1])
+    return None
 
 
 def index_const(b, op, depth=0):
